@@ -3,6 +3,7 @@ package main
 import (
 	"fmt"
 	"go/constant"
+	"go/parser"
 	"go/token"
 	"go/types"
 	"math/big"
@@ -158,14 +159,14 @@ func (g *Gen) tag(t types.Type) int {
 
 // ---------- sorts ----------
 
-var heapKinds = []string{"I", "B", "Q", "L", "P", "F", "MD", "MI", "MB", "MQ", "ML", "MP", "MF"}
-var heapSort = map[string]string{"I": "(Array Int (Array Int Int))", "B": "(Array Int (Array Int Bool))", "Q": "(Array Int (Array Int BSeq))", "L": "(Array Int (Array Int Slice))", "P": "(Array Int (Array Int Ptr))", "F": "(Array Int (Array Int Iface))"}
-var heapElemSort = map[string]string{"I": "Int", "B": "Bool", "Q": "BSeq", "L": "Slice", "P": "Ptr", "F": "Iface"}
-var heapZero = map[string]string{"I": "zI", "B": "zB", "Q": "zQ", "L": "zL", "P": "zP", "F": "zF"}
-var arrcopyFn = map[string]string{"I": "arrcopy", "B": "arrcopyB", "Q": "arrcopyQ", "L": "arrcopyL", "P": "arrcopyP", "F": "arrcopyF"}
+var heapKinds = []string{"I", "B", "Q", "L", "P", "F", "R", "MD", "MI", "MB", "MQ", "ML", "MP", "MF", "MR"}
+var heapSort = map[string]string{"R": "(Array Int (Array Int Int))", "I": "(Array Int (Array Int Int))", "B": "(Array Int (Array Int Bool))", "Q": "(Array Int (Array Int BSeq))", "L": "(Array Int (Array Int Slice))", "P": "(Array Int (Array Int Ptr))", "F": "(Array Int (Array Int Iface))"}
+var heapElemSort = map[string]string{"R": "Int", "I": "Int", "B": "Bool", "Q": "BSeq", "L": "Slice", "P": "Ptr", "F": "Iface"}
+var heapZero = map[string]string{"R": "zI", "I": "zI", "B": "zB", "Q": "zQ", "L": "zL", "P": "zP", "F": "zF"}
+var arrcopyFn = map[string]string{"R": "arrcopy", "I": "arrcopy", "B": "arrcopyB", "Q": "arrcopyQ", "L": "arrcopyL", "P": "arrcopyP", "F": "arrcopyF"}
 
 func init() {
-	for _, k := range []string{"I", "B", "Q", "L", "P", "F"} {
+	for _, k := range []string{"I", "B", "Q", "L", "P", "F", "R"} {
 		heapSort["M"+k] = heapSort[k]
 		heapZero["M"+k] = heapZero[k]
 		heapElemSort["M"+k] = heapElemSort[k]
@@ -194,7 +195,7 @@ func kindOf(t types.Type) string {
 	case *types.Interface, *types.Signature:
 		return "F"
 	case *types.Map, *types.Chan:
-		return "I"
+		return "R" // references to map / channel objects live in their own heap kind (so that heap well-formedness can be stated for them)
 	}
 	return ""
 }
@@ -400,6 +401,9 @@ func (g *Gen) freshState(base string) *State {
 func elemKind(k string) string {
 	if k == "MD" {
 		return "B"
+	}
+	if k == "R" || k == "MR" {
+		return "I"
 	}
 	if strings.HasPrefix(k, "M") {
 		return k[1:]
@@ -875,6 +879,8 @@ type loopCtx struct {
 	headState *State
 	spec      *LoopSpec
 	auto      []autoInv
+	lexers    []ssa.Value
+	lexInv    func(st *State, v ssa.Value) string
 }
 
 type autoInv struct {
@@ -1029,6 +1035,27 @@ func (a *Act) loopHead(b *ssa.BasicBlock, ins []edgeIn, backs []*ssa.BasicBlock,
 	}
 	p0 := a.pos(loopPos(b))
 	lname := fmt.Sprintf("%sloop%d", a.path, idx)
+	lc.lexers = a.lexersLiveAt(b)
+	mcLex := findMacro("lexOK")
+	lexInv := func(st *State, v ssa.Value) string {
+		e := a.newEnv(st, nil, nil)
+		c := e.child()
+		c.bound[mcLex.Params[0]] = tv{term: a.val(v), typ: v.Type()}
+		inv := c.evalBool(mcLex.Body.Expr)
+		if _, isParam := v.(*ssa.Parameter); !isParam {
+			// a lexer created in this function (uio.NewBigEndianBuffer): its two objects are fresh and stay the same
+			c.bound["l"] = c.bound[mcLex.Params[0]]
+			x, _ := parser.ParseExpr("fresh(l) && fresh(l.Buffer) && allocated(l) && allocated(l.Buffer) && exact(l) && exact(l.Buffer)")
+			inv = fmt.Sprintf("(and %s %s)", inv, c.evalBool(x))
+		}
+		return inv
+	}
+	if mcLex == nil {
+		lc.lexers = nil
+	}
+	for _, lv := range lc.lexers {
+		g.oblige("inv-init", lname+":auto:lexOK("+lv.Name()+")", reach, lexInv(stIn, lv), p0, "automatic invariant: the lexer stays well-formed")
+	}
 	// init obligations
 	for _, ai := range lc.auto {
 		g.oblige("inv-init", lname+":auto:"+ai.text, reach, fmt.Sprintf("(%s %s %s)", ai.rel, entryEnv[ai.phi], ai.c), p0, ai.text)
@@ -1090,12 +1117,61 @@ func (a *Act) loopHead(b *ssa.BasicBlock, ins []edgeIn, backs []*ssa.BasicBlock,
 			}
 		}
 	}
+	for _, lv := range lc.lexers {
+		g.assumeIf(reach, lexInv(st, lv))
+	}
+	lc.lexInv = lexInv
 	lc.headState = st.clone()
 	a.loops = append(a.loops, lc)
 	if a.top && a.g.eng.probes {
 		g.oblige("PROBE", fmt.Sprintf("%s:head-reachable", lname), reach, "false", p0, "must-fail reachability probe after loop invariant").probe = true
 	}
 	return st
+}
+
+// isMapRangeLoop: the loop header tests the ok result of Next on a map (or string) range iterator
+func (a *Act) isMapRangeLoop(h *ssa.BasicBlock) bool {
+	iff, ok := h.Instrs[len(h.Instrs)-1].(*ssa.If)
+	if !ok {
+		return false
+	}
+	ex, ok := iff.Cond.(*ssa.Extract)
+	if !ok || ex.Index != 0 {
+		return false
+	}
+	_, isNext := ex.Tuple.(*ssa.Next)
+	return isNext
+}
+
+// lexersLiveAt: values of type *uio.Lexer defined before the loop (parameters, or instructions in blocks that dominate the header and are outside the loop)
+func (a *Act) lexersLiveAt(h *ssa.BasicBlock) []ssa.Value {
+	var out []ssa.Value
+	isLex := func(t types.Type) bool { return shortName(t.String()) == "*uio.Lexer" }
+	for _, p := range a.fn.Params {
+		if isLex(p.Type()) {
+			if _, ok := a.env[p]; ok {
+				out = append(out, p)
+			}
+		}
+	}
+	for _, b := range a.fn.Blocks {
+		if b == h || !b.Dominates(h) {
+			continue
+		}
+		for _, in := range b.Instrs {
+			v, ok := in.(ssa.Value)
+			if !ok || v.Type() == nil || !isLex(v.Type()) {
+				continue
+			}
+			if _, isCall := in.(*ssa.Call); !isCall {
+				continue
+			}
+			if _, bound := a.env[v]; bound {
+				out = append(out, v)
+			}
+		}
+	}
+	return out
 }
 
 // autoInvFor recognises counters: phi = [c, phi + k] (k constant) gives phi >= c (k>0) or phi <= c (k<0).
@@ -1206,6 +1282,9 @@ func (a *Act) backEdge(from *ssa.BasicBlock, hdr *ssa.BasicBlock, cond string, s
 	for _, ai := range lc.auto {
 		g.oblige("inv-preserve", fmt.Sprintf("%s:auto:%s:edge%d", lname, ai.text, be), cond, fmt.Sprintf("(%s %s %s)", ai.rel, env[ai.phi], ai.c), p1, ai.text)
 	}
+	for _, lv := range lc.lexers {
+		g.oblige("inv-preserve", fmt.Sprintf("%s:auto:lexOK(%s):edge%d", lname, lv.Name(), be), cond, lc.lexInv(st, lv), p1, "automatic invariant: the lexer stays well-formed")
+	}
 	if lc.spec != nil {
 		for i, cl := range lc.spec.Invariants {
 			for j, c := range a.evalClauseAt(cl, st, env, nil) {
@@ -1224,12 +1303,26 @@ func (a *Act) backEdge(from *ssa.BasicBlock, hdr *ssa.BasicBlock, cond string, s
 			g.oblige("decrease", fmt.Sprintf("%s:edge%d", lname, be), cond, lexDecrease(oldm, newm), p1, "decreases "+clauseTexts(lc.spec.Decreases))
 		}
 	}
-	if lc.spec == nil || len(lc.spec.Decreases) == 0 {
+	if a.isMapRangeLoop(lc.header) && (lc.spec == nil || len(lc.spec.Decreases) == 0) {
+		// range over a map visits every key once (Go semantics; the map is finite): no measure needed
+		g.note("termination of the map range loop in %s is by Go semantics (finite map)", shortFn(a.fn))
+	} else if lc.spec == nil || len(lc.spec.Decreases) == 0 {
 		// automatic measure for counting loops: bound - counter
 		if m, ok := a.autoMeasure(lc); ok {
 			oldm := []string{m(lc.headEnv)}
 			newm := []string{m(env)}
 			g.oblige("decrease", fmt.Sprintf("%s:auto:edge%d", lname, be), cond, lexDecrease(oldm, newm), p1, "automatic measure (bound - counter)")
+		} else if len(lc.lexers) == 1 && g.eng.wantTermination {
+			// loops that consume a lexer: the unread length decreases
+			lv := lc.lexers[0]
+			ml := func(st *State) string {
+				e := a.newEnv(st, nil, nil)
+				c := e.child()
+				c.bound["l"] = tv{term: a.val(lv), typ: lv.Type()}
+				x, _ := parser.ParseExpr("len(l.Buffer.data)")
+				return c.value(c.eval(x)).term
+			}
+			g.oblige("decrease", fmt.Sprintf("%s:auto-lexer:edge%d", lname, be), cond, lexDecrease([]string{ml(lc.headState)}, []string{ml(st)}), p1, "automatic measure: unread bytes of the lexer decrease")
 		} else if g.eng.wantTermination {
 			g.oblige("decrease", fmt.Sprintf("%s:missing:edge%d", lname, be), cond, "false", p1, "no decreases clause and no automatic measure")
 		}
